@@ -868,6 +868,14 @@ void LLVMVisitor::bvisit(const Max &x)
 
 void LLVMVisitor::bvisit(const Symbol &x)
 {
+    // CSE temporaries first: cse() never names a temporary like a symbol
+    // occurring in the outputs, but it may pick the name of an input symbol
+    // that the outputs do not use.
+    auto it = replacement_symbol_ptrs.find(x.rcp_from_this());
+    if (it != replacement_symbol_ptrs.end()) {
+        result_ = it->second;
+        return;
+    }
     unsigned i = 0;
     for (auto &symb : symbols) {
         if (eq(x, *symb)) {
@@ -875,11 +883,6 @@ void LLVMVisitor::bvisit(const Symbol &x)
             return;
         }
         ++i;
-    }
-    auto it = replacement_symbol_ptrs.find(x.rcp_from_this());
-    if (it != replacement_symbol_ptrs.end()) {
-        result_ = it->second;
-        return;
     }
 
     throw SymEngineException("Symbol " + x.__str__()
